@@ -583,9 +583,9 @@ func c13FlushRule(c *Ctx, ex *ssa.Function, flush *Site, hsite *Site, visible []
 		_ = realFlush
 		// the flush error must be checked: the block after flush on err != nil returns
 		for _, v := range visible {
-			construct := qname(ex)+" → " + v.CalleeName()
+			construct := qname(ex) + " → " + v.CalleeName()
 			if isBroadcastInvoke(v) {
-				construct = qname(ex)+" → " + typeShort(v.Recv.Type()) + ".Broadcast(" + typeShort(v.Args()[len(v.Args())-1].Type()) + ")"
+				construct = qname(ex) + " → " + typeShort(v.Recv.Type()) + ".Broadcast(" + typeShort(v.Args()[len(v.Args())-1].Type()) + ")"
 			}
 			bypass := reachableAvoiding(ex, v.Block(), flush.Block(), skip)
 			errChecked := hasFact(factStrings(factsAtBlock(v.Block())), "Flush()", "!= nil") || !flush.Block().Dominates(v.Block())
